@@ -38,7 +38,7 @@ RULE = ('cases: (a) agent collectors: seeded runs of 30 timesteps with a populat
         'records held in between and an empty collection (b); distinct by the run signature.')
 ASSUMPTIONS = ['file clause checked for the default clear_records_on_write=True and filemode "a" (the property\'s wording)',
                'per-agent / composite functions are pure', 'os._exit after step t stands for a crash between timesteps']
-FLOORS = {'quick': {'agent_steps': 10000, 'records_compared': 5000, 'empty_records_skipped': 470, 'unscheduled_steps': 2000,
+FLOORS = {'quick': {'environment_installed_after_collector': 70, 'agent_steps': 10000, 'records_compared': 5000, 'empty_records_skipped': 470, 'unscheduled_steps': 2000,
                     'mid_step_population_changes': 2000, 'composite_none': 1000, 'composite_dict': 1000, 'shared_composite_dict_calls': 1000, 'history_unchanged_checks': 8000,
                     'file_steps': 4900, 'flushes': 1500, 'conservation_checks': 4900, 'empty_collections': 800, 'opens_observed': 1500,
                     'killed_children': 20, 'default_priority_runs': 200, 'big_many_systems_runs': 4, 'big_flush_batches': 4, 'collectors_attached_late': 100, 'late_collector_twin_runs': 100,
@@ -173,6 +173,17 @@ def case_agent(ctx, case):
     if not default_prio:
         kw['priority'] = cprio
     c = col.AgentCollector(model, f, **kw)
+    if rng.random() < 0.35:
+        # the model's environment is installed AFTER the collector was built (set-up order is the user's business; the Decoder also
+        # builds systems before agents): 'the agents then in the environment' are those of the model's current environment
+        import ECAgent.Environments as envs_
+        new_env = rng.choice([lambda: core.Environment(model), lambda: envs_.GridWorld(model, 4, 3), lambda: envs_.SpaceWorld(model, 5.0, 5.0)])()
+        if rng.random() < 0.5:
+            model.set_environment(new_env)
+        else:
+            model.environment = new_env
+        env = model.environment
+        ctx.count('environment_installed_after_collector')
     register_at = rng.choice([0, 0, rng.randint(1, 7)])          # attached after a burn-in (possibly off its own grid)
     if register_at == 0:
         model.systems.add_system(c)
